@@ -9,7 +9,7 @@ from .runner import hyp_run
 PROP = "C03"
 LEVEL = "exploration"
 RULE = (
-    "strings from four families (random derivations of the documented grammar rendered with minimal or explicit "
+    "every token sequence of <= 4 (quick) / 6 (thorough) tokens over a 14-token vocabulary, exhaustively, plus strings from four families (random derivations of the documented grammar rendered with minimal or explicit "
     "parentheses, implicit multiplication, whitespace and bracket/en-dash aliases; rule-shaped templates; 1-3 "
     "character-level mutations of those; token soups over the tokenizer alphabet); oracle = an independent "
     "reference tokenizer+parser written from the documented grammar: accept/reject must coincide, and on accept the "
@@ -147,6 +147,14 @@ def check_string(ctx, case):
         det = {"impl_tree": E.text_of(root), "reference_ast": repr(ast)[:400], "witness": witness, "leaves_equal": leaf_ok, "explained_by_right_nested_muldiv_chain": explained}
         kindb = "value" if witness is not None else "operand-sequence"
         return ctx.fail((kindb, "muldiv-chain" if explained else "other"), case, det)
+    # informational: structure identical to the reference reading (with the implementation's right-nested * / convention)?
+    try:
+        from .schemas import tree_to_ast
+
+        if tree_to_ast(root) != RP.parse(s, muldiv_right=True):
+            ctx.count("structure_differs_from_reference(values agree)")
+    except Exception:
+        ctx.count("structure_comparison_failed")
     if [x[2] for x in leaves_i if x[0] == "c"] != [x[2] for x in leaves_r if x[0] == "c"]:
         return ctx.fail(("literal-coercion",), case, {"impl": [x for x in leaves_i if x[0] == "c"], "reference": [x for x in leaves_r if x[0] == "c"]})
 
@@ -162,7 +170,24 @@ def replay(ctx, case):
     check_string(ctx, case)
 
 
+TOKENS = ["x", "y", "2", "0.5", "+", "-", "*", "/", "^", "!", "=", "(", ")", "sgn"]
+
+
 def run(ctx):
+    # bounded-exhaustive part: every token sequence up to a length bound over a 14-token vocabulary
+    import itertools
+
+    bound = 4 if ctx.tier == "quick" else 6
+    n = 0
+    for k in range(1, bound + 1):
+        for seq in itertools.product(TOKENS, repeat=k):
+            n += 1
+            if n % ctx.nshards != ctx.shard:
+                continue
+            ctx.count("evaluations")
+            ctx.count("exhaustive_strings")
+            check_string(ctx, {"s": "".join(seq)})
+    ctx.info["exhaustive_token_sequences"] = f"all {n} sequences of <= {bound} tokens over {TOKENS}"
     strat = G.grammar_strings(10 if ctx.tier == "quick" else 16).map(lambda s: {"s": s})
     hyp_run(ctx, "grammar-strings", strat, check_string, ctx.n(12000, 100000))
     if ctx.tier == "thorough":
